@@ -87,6 +87,9 @@ Clauses(T, e, gonePrev) ==
           cost     |-> e.post.cost = e.pre.cost + CostOf(T, e.req),
           ret      |-> e.ret = Guard(T, e.post),
           sactive  |-> sm[1], sargmax |-> sm[2], sdistinct |-> sm[3],
+          pess     |-> IF e.pess.has        \* the pessimistic Pareto set handed to discarding() (C11, last sentence)
+                       THEN ToSet(e.pess.set) = VogpPess(pre.S, pre.P, ToSet(e.rel.c) \cup ToSet(e.pess.cx))
+                       ELSE TRUE,
           modeled  |-> e.modeled,          \* (scripted runs) every design active at modelling time displays this round's posterior
           flatp    |-> IF Fam(T.alg) # "flat" THEN TRUE            \* NaiveElimination / DecoupledGP: reported P = exact Pareto set of the current mean estimates
                        ELSE \E X \in SUBSET ToSet(e.flat.amb) :
